@@ -9,18 +9,26 @@ from lib import hx, unhx, show_list
 from pycoin.symbols.btc import network as BTC
 from pycoin.coins.tx_utils import split_with_remainder, distribute_from_split_pool
 from pycoin import convention
+from pycoin.convention import tx_fee
+from pycoin.coins.tx_utils import SecretExponentMissing  # noqa: F401
 
 MANIFEST = {
     "text": "Lean theorems over the model of split_with_remainder / distribute_from_split_pool / fee / validate_unspents / Decimal conversions "
             "(sum, shape, positivity, exact error thresholds, soundness of validate_unspents, satoshi<->BTC/mBTC round trip below 10^20) for all inputs; "
-            "model tied to the code by differential correspondence through create_tx, Tx.fee, validate_unspents and convention on every run.",
-    "note": "Modelled not verified: decimal.Decimal (precision 28, half-even) and the deprecated fee='standard' estimator (excluded).",
+            "model tied to the code by differential correspondence through create_tx, Tx.fee, validate_unspents and convention on every run. "
+            "Second part (Model/TxBuild.lean): recommended_fee_for_tx (exact formula, monotone), create_tx as a whole with fee='standard', spendables given as "
+            "text/dict and bare-address payables (conservation, pairing, error thresholds, independence of the form), create_signed_tx (SecretExponentMissing), "
+            "total_in/fee with coinbase inputs and missing unspents as histories on one object, validate_unspents against a database that answers with "
+            "a transaction of another hash.",
+    "note": "Modelled not verified: decimal.Decimal (precision 28, half-even); the signing inside create_signed_tx is C05's (here: solved iff the key was supplied).",
     "technique": "Lean 4 proof (induction/omega over an executable model) + differential correspondence model vs implementation",
 }
-RULE = ("ops split/distribute/sat2btc/btc2sat/sat2mbtc/mbtc2sat/validate_unspents; boundary corpus (every remainder class for "
-        "1..12 split outputs, both error thresholds) + seeded random; distinct = distinct op line; trivial = split pool absent")
+RULE = ("ops split/distribute/sat2btc/btc2sat/sat2mbtc/mbtc2sat/validate_unspents/validate_unspents_h/recfee_n/recfee/ctx/csigned/txhist/txhist2; "
+        "boundary corpus (every remainder class for 1..12 split outputs, both error thresholds, sizes around every started thousand of bytes, "
+        "coinbase / None / wrong-count unspents, db answering with another hash) + seeded random; distinct = distinct op line; "
+        "trivial = split pool absent")
 ASSUMPTIONS = ["decimal.Decimal modelled as coefficient*10^exp with precision 28 and ROUND_HALF_EVEN",
-               "fee given as an integer (the deprecated fee='standard' estimator is outside the property)"]
+               "create_signed_tx: inputs are pay-to-public-key-hash outputs; whether an input is solved is C05's statement, C13 models only the verdict"]
 
 Tx = BTC.tx
 ADDR = [BTC.address.for_p2pkh(bytes([i + 1]) * 20) for i in range(3)]
@@ -70,6 +78,20 @@ def impl(op: str) -> str:
             return _txhist(parse_ints(a[1]), parse_ints(a[2]), a[3].split(";"))
         if k == "validate_unspents":
             return _validate(a[1], a[2], a[3])
+        if k == "validate_unspents_h":
+            return _validate_h(a[1], a[2], a[3], a[4])
+        if k == "recfee_n":
+            return "ok %d" % tx_fee.recommended_fee_for_tx(_Blob(int(a[1])))
+        if k == "recfee":
+            return "ok %d" % tx_fee.recommended_fee_for_tx(Tx.from_hex(a[1]))
+        if k == "ctx":
+            return _ctx(a[1], a[2], a[3])
+        if k == "chain":
+            return _chain(a[1], a[2], a[3], a[4], a[5])
+        if k == "csigned":
+            return _csigned(a[1], parse_ints(a[2]), parse_ints(a[3]), a[4], parse_ints(a[5]))
+        if k == "txhist2":
+            return _txhist2(a[1], a[2], parse_ints(a[3]), a[4].split(";"))
     except Exception as e:  # noqa: BLE001
         return "err " + type(e).__name__
     return "bad-op"
@@ -151,6 +173,191 @@ def _validate(ins_s, us_s, db_s):
     return "ok"
 
 
+
+# ---------------------------------------------------------------- second part (Model/TxBuild.lean)
+ZERO32 = b"\0" * 32
+
+
+class _Blob:
+    """something whose stream() writes n bytes: recommended_fee_for_tx only looks at the size"""
+    def __init__(self, n): self.n = n
+    def stream(self, f): f.write(b"\0" * self.n)
+
+
+def _vi(n):
+    return 1 if n < 253 else 3 if n < 65536 else 5 if n < 2 ** 32 else 9
+
+
+def _draft_size(nin, scripts):
+    """size of the unsigned draft create_tx estimates the standard fee on (by the wire format, not by pycoin)"""
+    return 4 + _vi(nin) + 41 * nin + _vi(len(scripts)) + sum(8 + _vi(len(s)) + len(s) for s in scripts) + 4
+
+
+def _fee_arg(s):
+    return "standard" if s == "std" else int(s)
+
+
+def _value_err(e):
+    return "err " + ("insufficient" if "insufficient" in str(e) else "notEnough")
+
+
+def _parse_sps(s):
+    res = []
+    for it in ([] if s == "~" else s.split(",")):
+        f, v, sc, h, i = it.split(":")
+        res.append((f, int(v), unhx(sc), unhx(h), int(i)))
+    return res
+
+
+def _parse_pays(s):
+    res = []
+    for it in ([] if s == "~" else s.split(",")):
+        f, v, sc = it.split(":")
+        res.append((f, int(v), unhx(sc)))
+    return res
+
+
+def _payables(pays):
+    out = []
+    for f, v, sc in pays:
+        addr = BTC.address.for_script(sc)
+        out.append(addr if f == "b" else (addr, v))
+    return out
+
+
+def _ctx(fee_s, sps_s, pays_s):
+    sps, pays = _parse_sps(sps_s), _parse_pays(pays_s)
+    objs = [Tx.Spendable(v, sc, h, i) for _f, v, sc, h, i in sps]
+    given = [o if f == "o" else o.as_text() if f == "t" else o.as_dict() for (f, *_), o in zip(sps, objs)]
+    try:
+        tx = BTC.tx_utils.create_tx(given, _payables(pays), fee=_fee_arg(fee_s))
+    except ValueError as e:
+        return _value_err(e)
+    us = tx.unspents
+    paired = len(tx.txs_in) == len(objs) == len(us) and len(tx.txs_out) == len(pays) and all(
+        i.previous_hash == o.tx_hash and i.previous_index == o.tx_out_index and i.script == b"" and i.sequence == 0xFFFFFFFF
+        and u.coin_value == o.coin_value and u.script == o.script and u.tx_hash == o.tx_hash and u.tx_out_index == o.tx_out_index
+        for i, o, u in zip(tx.txs_in, objs, us)) and all(t.script == p[2] for t, p in zip(tx.txs_out, pays)) \
+        and tx.version == 1 and tx.lock_time == 0
+    return "ok %s fee=%d in=%s us=%s%s" % (
+        show_list(o.coin_value for o in tx.txs_out), tx.fee(),
+        show_list(tx.txs_in, lambda i: "%s:%d" % (hx(i.previous_hash), i.previous_index)),
+        show_list(u.coin_value for u in us), "" if paired else " UNPAIRED")
+
+
+def _chain_srcs(srcs_s):
+    return [Tx(1, [Tx.TxIn(bytes([j + 1]) * 32, j)], [Tx.TxOut(int(o.split(":")[0]), unhx(o.split(":")[1])) for o in e.split(";")])
+            for j, e in enumerate(srcs_s.split("|"))]
+
+
+def _chain(srcs_s, picks_s, pays_s, fee_s, tamper):
+    srcs = _chain_srcs(srcs_s)
+    avail = [t.tx_outs_as_spendable() for t in srcs]
+    sps = [avail[int(p.split(":")[0])][int(p.split(":")[1])] for p in picks_s.split(",")]
+    try:
+        tx = BTC.tx_utils.create_tx(sps, _payables(_parse_pays(pays_s)), fee=_fee_arg(fee_s))
+    except ValueError as e:
+        return _value_err(e)
+    if tamper != "-":
+        k, dv = tamper.split(":")
+        u = tx.unspents[int(k)]
+        tx.unspents[int(k)] = Tx.TxOut(u.coin_value + int(dv), u.script)
+    fee = tx.validate_unspents({t.hash(): t for t in srcs})
+    return "ok %s fee=%d" % (show_list(o.coin_value for o in tx.txs_out), fee)
+
+
+_KEYS: dict = {}
+
+
+def _key(k):
+    if k not in _KEYS:
+        key = BTC.keys.private(k + 1)
+        _KEYS[k] = (key.wif(), BTC.contract.for_p2pkh(key.hash160()))
+    return _KEYS[k]
+
+
+def _csigned(fee_s, ins, keys, pays_s, supplied):
+    pays = _parse_pays(pays_s)
+    objs = [Tx.Spendable(v, _key(k)[1], bytes([i + 1]) * 32, i) for i, (v, k) in enumerate(zip(ins, keys))]
+    try:
+        tx = BTC.tx_utils.create_signed_tx(objs, _payables(pays), wifs=[_key(k)[0] for k in supplied], fee=_fee_arg(fee_s))
+    except ValueError as e:
+        return _value_err(e)
+    bad = tx.bad_solution_count()
+    return "ok %s fee=%d%s" % (show_list(o.coin_value for o in tx.txs_out), tx.fee(), " UNSOLVED" if bad else "")
+
+
+def _opt_ints(s):
+    return [] if s == "~" else [None if x == "n" else int(x) for x in s.split(",")]
+
+
+class _Src:
+    def __init__(self, h, outs): self._h, self.txs_out = h, outs
+    def hash(self): return self._h
+    def id(self): return self._h[::-1].hex()
+
+
+def _mk_tx(cb, us, outs):
+    tx = Tx(1, [Tx.TxIn(ZERO32, 0xFFFFFFFF) if c else Tx.TxIn(bytes([i + 1]) * 32, 0) for i, c in enumerate(cb)],
+            [Tx.TxOut(v, b"\x51") for v in outs])
+    tx.unspents = [None if v is None else Tx.TxOut(v, b"\x51") for v in us]
+    return tx
+
+
+def _hstep(tx, st):
+    f = st.split(":")
+    if f[0] == "fee":
+        return str(tx.fee())
+    if f[0] == "total_in":
+        return str(tx.total_in())
+    if f[0] == "total_out":
+        return str(tx.total_out())
+    if f[0] == "set_unspents":
+        tx.set_unspents([None if v is None else Tx.TxOut(v, b"\x51") for v in _opt_ints(f[1])]); return "-"
+    if f[0] == "assign":
+        tx.unspents = [None if v is None else Tx.TxOut(v, b"\x51") for v in _opt_ints(f[1])]; return "-"
+    if f[0] == "from_db":
+        db = {}
+        for i, v in enumerate(_opt_ints(f[1])):
+            if v is not None and i < len(tx.txs_in):
+                h = tx.txs_in[i].previous_hash
+                db[h] = _Src(h, [Tx.TxOut(v, b"\x51")])
+        tx.unspents_from_db(db, ignore_missing=(f[2] == "1")); return "-"
+    if f[0] == "set_out":
+        tx.txs_out[int(f[1])].coin_value = int(f[2]); return "-"
+    raise ValueError("bad step")
+
+
+def _txhist2(cb_s, us_s, outs, steps):
+    cb = [x == "1" for x in ([] if cb_s == "~" else cb_s.split(","))]
+    tx = _mk_tx(cb, _opt_ints(us_s), outs)
+    res = []
+    for st in steps:
+        try:
+            res.append(_hstep(tx, st))
+        except Exception as e:  # noqa: BLE001
+            res.append(type(e).__name__)
+    return "ok " + ";".join(res)
+
+
+def _parse_dbh(db_s):
+    db = {}
+    if db_s != "~":
+        for e in db_s.split("|"):
+            k, h, outs = e.split("=")
+            db[unhx(k)] = (unhx(h), [] if outs == "" else [(int(x.split(":")[0]), unhx(x.split(":")[1])) for x in outs.split(";")])
+    return db
+
+
+def _validate_h(ins_s, us_s, outs_s, db_s):
+    ins = [] if ins_s == "~" else [(unhx(x.split(":")[0]), int(x.split(":")[1])) for x in ins_s.split(",")]
+    us = [] if us_s == "~" else [(int(x.split(":")[0]), unhx(x.split(":")[1])) for x in us_s.split(",")]
+    real_db = {k: _Src(h, [Tx.TxOut(v, s) for v, s in outs]) for k, (h, outs) in _parse_dbh(db_s).items()}
+    tx = Tx(1, [Tx.TxIn(h, i) for h, i in ins], [Tx.TxOut(v, b"\x51") for v in parse_ints(outs_s)])
+    tx.set_unspents([Tx.TxOut(v, s) for v, s in us])
+    return "ok %d" % tx.validate_unspents(real_db)
+
+
 def oracle(op: str, out: str):
     """the property evaluated on the implementation alone"""
     a = op.split(" ")
@@ -230,11 +437,138 @@ def oracle(op: str, out: str):
                 continue
             if h not in db or idx >= len(db[h]) or i >= len(us) or db[h][idx] != us[i]:
                 return "validate_unspents returned normally with a discrepancy at input %d" % i
+    r2 = _oracle2(a, k, out)
+    if r2:
+        return r2
+    return None
+
+
+def _ceil_fee(n):
+    return tx_fee.TX_FEE_PER_THOUSAND_BYTES * (-(-n // 1000))
+
+
+def _split_check(ins, pays_v, res, fee, got_fee):
+    zc = pays_v.count(0)
+    if sum(res) + fee != sum(ins):
+        return "outputs + fee != inputs"
+    if got_fee != sum(ins) - sum(res):
+        return "tx.fee() != inputs - outputs"
+    shares = [r for o, r in zip(pays_v, res) if o == 0]
+    if any(x <= 0 for x in shares) or max(shares) - min(shares) > 1 or any(shares[i] < shares[i + 1] for i in range(len(shares) - 1)):
+        return "split-pool outputs not positive / not within one satoshi / remainder not on earlier outputs"
+    if [r for o, r in zip(pays_v, res) if o != 0] != [o for o in pays_v if o != 0]:
+        return "a fixed output was changed"
+    if zc == 0:
+        return None
+    return None
+
+
+def _oracle2(a, k, out):
+    if k == "recfee_n" and out.startswith("ok"):
+        if int(out[3:]) != _ceil_fee(int(a[1])):
+            return "recommended fee is not the rate times the started thousands of bytes"
+    if k == "recfee" and out.startswith("ok"):
+        if int(out[3:]) != _ceil_fee(len(a[1]) // 2):
+            return "recommended fee is not the rate times the started thousands of bytes of the serialised transaction"
+    if k in ("ctx", "csigned"):
+        if k == "ctx":
+            sps, pays = _parse_sps(a[2]), _parse_pays(a[3])
+            ins = [v for _f, v, *_ in sps]
+        else:
+            ins, pays = parse_ints(a[2]), _parse_pays(a[4])
+        pays_v = [0 if f == "b" else v for f, v, _s in pays]
+        fee = _ceil_fee(_draft_size(len(ins), [s_ for _f, _v, s_ in pays])) if a[1] == "std" else int(a[1])
+        zc = pays_v.count(0)
+        rem = sum(ins) - sum(pays_v) - fee
+        missing = k == "csigned" and not set(parse_ints(a[3])) <= set(parse_ints(a[5]))
+        if out.startswith("ok"):
+            if "UNPAIRED" in out:
+                return "an input is not paired with the spendable it came from (or an output script / version / lock time is not the one asked for)"
+            if "UNSOLVED" in out:
+                return "create_signed_tx returned a transaction with an unsolved input"
+            if missing:
+                return "create_signed_tx returned although a key was not supplied"
+            f = out.split(" ")
+            res = parse_ints(f[1])
+            got_fee = int(f[2].split("=")[1])
+            if k == "ctx":
+                want_in = show_list(sps, lambda t: "%s:%d" % (hx(t[3]), t[4]))
+                if f[3] != "in=" + want_in or f[4] != "us=" + show_list(ins):
+                    return "inputs / unspents are not the spendables in order"
+            if zc:
+                if rem < zc:
+                    return "transaction produced although funds are insufficient"
+                return _split_check(ins, pays_v, res, fee, got_fee)
+            if res != pays_v:
+                return "a fixed output was changed"
+        elif zc and rem >= zc and not (missing and out == "err SecretExponentMissing"):
+            return "error raised although funds suffice"
+        elif not zc and not (missing and out == "err SecretExponentMissing"):
+            return "error raised although no output was left unspecified"
+    if k == "chain":
+        srcs = [[int(o.split(":")[0]) for o in e.split(";")] for e in a[1].split("|")]
+        ins = [srcs[int(p.split(":")[0])][int(p.split(":")[1])] for p in a[2].split(",")]
+        pays_v = [0 if f == "b" else v for f, v, _s in _parse_pays(a[3])]
+        if out.startswith("ok"):
+            if a[5] != "-" and int(a[5].split(":")[1]) != 0:
+                return "validate_unspents returned normally although a recorded amount differs from the source transaction"
+            res = parse_ints(out.split(" ")[1])
+            got = int(out.split("fee=")[1])
+            if got != sum(ins) - sum(res):
+                return "validate_unspents does not return the real inputs minus outputs"
+            if pays_v.count(0) and a[4] != "std" and got != int(a[4]):
+                return "fee of the built transaction is not the fee asked for"
+        elif out == "err BadSpendableError" and (a[5] == "-" or int(a[5].split(":")[1]) == 0):
+            return "spendables taken from the source transactions themselves were rejected"
+    if k == "txhist2" and out.startswith("ok"):
+        cb = [x == "1" for x in ([] if a[1] == "~" else a[1].split(","))]
+        us, outs = _opt_ints(a[2]), parse_ints(a[3])
+        for st, r in zip(a[4].split(";"), out[3:].split(";")):
+            f = st.split(":")
+            if f[0] in ("fee", "total_in", "total_out"):
+                fresh = _mk_tx(cb, us, outs)
+                try:
+                    want = _hstep(fresh, st)
+                except Exception as e:  # noqa: BLE001
+                    want = type(e).__name__
+                if r != want:
+                    return "%s() on the object with a history differs from a fresh object with the same fields" % f[0]
+                if r.lstrip("-").isdigit() and not cb == [True]:
+                    if f[0] == "total_out":
+                        if int(r) != sum(outs):
+                            return "total_out() is not the sum of the current outputs"
+                        continue
+                    if len(us) != len(cb) or any(u is None for u in us):
+                        return "%s() returned although an unspent is missing" % f[0]
+                    want_v = {"fee": sum(us) - sum(outs), "total_in": sum(us), "total_out": sum(outs)}[f[0]]
+                    if int(r) != want_v:
+                        return "%s() is not computed from the current unspents and outputs" % f[0]
+            elif r == "-":
+                if f[0] in ("set_unspents", "assign"):
+                    us = _opt_ints(f[1])
+                elif f[0] == "from_db":
+                    found = _opt_ints(f[1])
+                    us = [None if c else (found[i] if i < len(found) else None) for i, c in enumerate(cb)]
+                elif f[0] == "set_out":
+                    outs[int(f[1])] = int(f[2])
+    if k == "validate_unspents_h" and out.startswith("ok"):
+        ins = [] if a[1] == "~" else [(unhx(x.split(":")[0]), int(x.split(":")[1])) for x in a[1].split(",")]
+        us = [] if a[2] == "~" else [(int(x.split(":")[0]), unhx(x.split(":")[1])) for x in a[2].split(",")]
+        db = _parse_dbh(a[4])
+        for i, (h, idx) in enumerate(ins):
+            if h == ZERO32:
+                continue
+            if h not in db or db[h][0] != h or idx >= len(db[h][1]) or i >= len(us) or db[h][1][idx] != us[i]:
+                return "validate_unspents returned normally with a discrepancy at input %d (missing / other hash / other output)" % i
+        if not (len(ins) == 1 and ins[0] == (ZERO32, 0xFFFFFFFF)) and int(out[3:]) != sum(v for v, _s in us) - sum(parse_ints(a[3])):
+            return "validate_unspents does not return inputs minus outputs"
     return None
 
 
 def trivial(op: str) -> bool:
     a = op.split(" ")
+    if a[0] == "ctx":
+        return not any(f == "b" or v == 0 for f, v, _s in _parse_pays(a[3]))
     return a[0] == "distribute" and "0" not in a[2].split(",")
 
 
@@ -248,6 +582,13 @@ def neighbours(op, rng):
         t, c = int(a[1]), int(a[2])
         for d in range(0, 2 * c + 1):
             yield "split %d %d" % (t + d, c)
+    elif a[0] == "recfee_n":
+        n = int(a[1])
+        for d in (0, 1, 999, 1000, 1001):
+            yield "recfee_n %d" % (n - n % 1000 + d)
+    elif a[0] in ("ctx", "csigned") and a[1] != "std":
+        for d in (-2, -1, 0, 1, 2):
+            yield " ".join([a[0], str(max(0, int(a[1]) + d))] + a[2:])
 
 
 def gen(ctx, emit):
@@ -358,3 +699,159 @@ def gen(ctx, emit):
             show_list(ins, lambda t: "%s:%d" % (hx(t[0]), t[1])),
             show_list(us, lambda t: "%d:%s" % (t[0], hx(t[1]))),
             "|".join("%s=%s" % (hx(h), ";".join("%d:%s" % (v, hx(s)) for v, s in outs)) for h, outs in db.items()) or "~"))
+
+    _gen2(ctx, emit)
+
+
+SCRIPTS = [b"\x76\xa9\x14" + bytes([7]) * 20 + b"\x88\xac", b"\xa9\x14" + bytes([8]) * 20 + b"\x87",
+           b"\x00\x14" + bytes([9]) * 20, b"\x00\x20" + bytes([10]) * 32, b"\x51\x20" + bytes([11]) * 32]
+
+
+def _gen2(ctx, emit):
+    rng = ctx.rng
+    # recommended fee: every started thousand, both sides
+    for base in (0, 1000, 2000, 10000, 99000, 100000, 999000, 1000000):
+        for d in (-1, 0, 1, 2, 500, 998, 999):
+            if base + d >= 0:
+                emit("recfee_n %d" % (base + d))
+    for _ in range(ctx.n(150, 10000)):
+        emit("recfee_n %d" % rng.choice([rng.randrange(0, 5000), rng.randrange(0, 4 * 10 ** 6), 1000 * rng.randrange(0, 4000) + rng.choice([0, 1, 999])]))
+
+    def rs(n):
+        return bytes(rng.randrange(256) for _ in range(n))
+
+    def real_tx(nin, nout, wit, pad=0):
+        tx = Tx(rng.choice([1, 2]), [Tx.TxIn(rs(32), rng.randrange(4), rs(rng.randrange(0, 120))) for _ in range(nin)],
+                [Tx.TxOut(rng.randrange(0, 10 ** 12), rng.choice(SCRIPTS)) for _ in range(nout)] + ([Tx.TxOut(0, b"\x6a" + rs(pad))] if pad else []), rng.randrange(0, 3))
+        if wit:
+            for i in tx.txs_in:
+                i.witness = [rs(rng.randrange(0, 80)) for _ in range(rng.randrange(0, 3))]
+        return tx
+    for _ in range(ctx.n(60, 3000)):
+        emit("recfee " + real_tx(rng.randint(1, 12), rng.randint(1, 6), rng.random() < 0.4).as_hex())
+    # sizes exactly at a started thousand: pad an OP_RETURN output
+    for target in (999, 1000, 1001, 1999, 2000, 2001):
+        base = real_tx(2, 1, False)
+        n0 = len(base.as_bin())
+        pad = target - n0 - 8 - 3 - 1      # value, 3-byte length prefix (253 ≤ len), OP_RETURN
+        base.txs_out.append(Tx.TxOut(0, b"\x6a" + rs(pad)))
+        if len(base.as_bin()) == target:
+            emit("recfee " + base.as_hex())
+
+    def sp_items(vals, forms="o"):
+        return show_list(list(enumerate(vals)), lambda t: "%s:%d:%s:%s:%d" % (
+            rng.choice(forms), t[1], hx(b"\x51" + bytes([t[0] % 256])), hx(bytes([(t[0] % 255) + 1]) * 32), t[0]))
+
+    def pay_items(vals, bare=0.0):
+        return show_list(list(enumerate(vals)), lambda t: "%s:%d:%s" % (
+            "b" if t[1] == 0 and rng.random() < bare else "p", t[1], hx(rng.choice(SCRIPTS))))
+    # create_tx with the standard fee: drafts on both sides of each started thousand (41 bytes per input)
+    for nin in (1, 2, 22, 23, 24, 25, 46, 47, 48, 49, 50, 72, 73, 74):
+        for outs in ([0], [0, 0, 0], [5000, 0], [700]):
+            emit("ctx std %s %s" % (sp_items([50000] * nin), pay_items(outs)))
+    for zc in (1, 2, 3):
+        for rem in (-1, 0, zc - 1, zc, zc + 1):
+            emit("ctx std %s %s" % (sp_items([10000 + 50 + rem]), pay_items([50] + [0] * zc)))
+    for forms in ("t", "d", "otd"):
+        emit("ctx 5 %s %s" % (sp_items([100, 2 ** 40, 21 * 10 ** 14], forms), pay_items([0, 7, 0], 1.0)))
+    for _ in range(ctx.n(250, 20000)):
+        nin = rng.choice([1, 2, 3, rng.randint(1, 80)])
+        ins = [rng.choice([1, 546, 20000, rng.randrange(1, 10 ** rng.randint(1, 15))]) for _ in range(nin)]
+        nout = rng.randint(1, 6)
+        outs = [0 if rng.random() < 0.5 else rng.randrange(1, max(2, sum(ins) // nout + 2)) for _ in range(nout)]
+        zc, slack = outs.count(0), sum(ins) - sum(outs)
+        fee = rng.choice(["std", "std", 0, rng.randrange(0, 10 ** 5), max(0, slack - zc), max(0, slack - zc + 1), max(0, slack)])
+        emit("ctx %s %s %s" % (fee, sp_items(ins, rng.choice(["o", "otd", "t", "d"])), pay_items(outs, rng.choice([0.0, 0.5, 1.0]))))
+    # source transactions -> tx_outs_as_spendable -> create_tx -> validate_unspents against the sources (real hashes)
+    for _ in range(ctx.n(60, 3000)):
+        srcs = [[(rng.randrange(1, 10 ** 7), rng.choice(SCRIPTS)) for _o in range(rng.randint(1, 3))] for _s in range(rng.randint(1, 3))]
+        picks = list({(j, i) for j, i in ((rng.randrange(len(srcs)), 0) for _p in range(rng.randint(1, 3))) for i in [rng.randrange(len(srcs[j]))]})
+        rng.shuffle(picks)
+        total = sum(srcs[j][i][0] for j, i in picks)
+        outs = [0 if rng.random() < 0.6 else rng.randrange(1, max(2, total // 3)) for _o in range(rng.randint(1, 3))]
+        fee = rng.choice(["std", 0, rng.randrange(0, 1000)])
+        tam = "-" if rng.random() < 0.5 else "%d:%d" % (rng.randrange(len(picks)), rng.choice([-1, 1, 0, 1000]))
+        emit("chain %s %s %s %s %s" % ("|".join(";".join("%d:%s" % (v, hx(sc)) for v, sc in so) for so in srcs),
+                                       show_list(picks, lambda t: "%d:%d" % t), pay_items(outs, 0.3), fee, tam))
+    # create_signed_tx
+    emit("csigned 10 1000,2000 0,1 p:0:%s 0,1" % hx(SCRIPTS[0]))
+    emit("csigned 10 1000,2000 0,1 p:0:%s 0" % hx(SCRIPTS[0]))
+    emit("csigned 10 1000,2000 0,1 p:0:%s ~" % hx(SCRIPTS[0]))
+    emit("csigned std 100000,2000 0,0 p:0:%s,p:70:%s 0" % (hx(SCRIPTS[1]), hx(SCRIPTS[2])))
+    emit("csigned 3001 1000,2000 0,1 p:0:%s 0" % hx(SCRIPTS[0]))
+    for _ in range(ctx.n(40, 1500)):
+        nin = rng.randint(1, 3)
+        ins = [rng.randrange(600, 10 ** 7) for _ in range(nin)]
+        keys = [rng.randrange(4) for _ in range(nin)]
+        sup = sorted(set(keys)) if rng.random() < 0.6 else sorted(set(rng.randrange(4) for _ in range(rng.randint(0, 3))))
+        outs = [0 if rng.random() < 0.6 else rng.randrange(1, 500) for _ in range(rng.randint(1, 3))]
+        fee = rng.choice(["std", 0, 100, max(0, sum(ins) - sum(outs) - outs.count(0) + rng.choice([0, 1]))])
+        emit("csigned %s %s %s %s %s" % (fee, show_list(ins), show_list(keys), pay_items(outs, 0.3), show_list(sup)))
+    # histories with coinbase inputs, None unspents, wrong counts
+    def ol(xs):
+        return show_list(xs, lambda v: "n" if v is None else str(v))
+    emit("txhist2 1 ~ 50,1 fee;total_in;total_out;set_out:0:9;fee")
+    emit("txhist2 1 ~ ~ total_in;fee")
+    emit("txhist2 0,0 5,n 3 total_in;fee;assign:5,6;fee;from_db:4,n:1;fee;from_db:4,n:0;fee;from_db:4,8:0;fee")
+    emit("txhist2 0,0 5 3 fee;set_unspents:1,2,3;fee;set_unspents:1,2;fee;assign:1,2,3;total_in")
+    emit("txhist2 0,1 5,7 3 fee;from_db:4,9:0;fee;total_in")
+    emit("txhist2 1,1 5,7 3 fee;from_db:4,9:0;fee")
+    emit("txhist2 ~ ~ 3 fee;total_in;total_out")
+    for _ in range(ctx.n(300, 20000)):
+        n = rng.randint(1, 3)
+        cb = [rng.random() < (0.5 if n == 1 else 0.15) for _ in range(n)]
+
+        def uslist(m=None):
+            m = n if m is None else m
+            return [None if rng.random() < 0.15 else rng.randrange(1, 10 ** 6) for _ in range(m)]
+        outs = [rng.randrange(1, 10 ** 5) for _ in range(rng.randint(1, 3))]
+        steps = []
+        for _s in range(rng.randint(2, 8)):
+            c = rng.random()
+            if c < 0.4:
+                steps.append(rng.choice(["fee", "total_in", "total_out"]))
+            elif c < 0.6:
+                steps.append("from_db:%s:%d" % (ol(uslist()), rng.randrange(2)))
+            elif c < 0.85:
+                steps.append("%s:%s" % (rng.choice(["set_unspents", "assign"]), ol(uslist(rng.choice([n, n, n, n - 1, n + 1])))))
+            else:
+                steps.append("set_out:%d:%d" % (rng.randrange(len(outs)), rng.randrange(1, 10 ** 5)))
+        steps += ["fee", "total_in"]
+        emit("txhist2 %s %s %s %s" % (show_list(int(c) for c in cb), ol(uslist(rng.choice([n, n, n + 1, n - 1]))), show_list(outs), ";".join(steps)))
+    # validate_unspents: a database that answers with a transaction of another hash, several discrepancies at once
+    for _ in range(ctx.n(300, 20000)):
+        srcs = {}
+        for _s in range(rng.randint(1, 3)):
+            srcs[rs(32)] = [(rng.randrange(0, 10 ** 9), rs(rng.randint(0, 4))) for _o in range(rng.randint(1, 4))]
+        hs = list(srcs)
+        ins, us = [], []
+        for _i in range(rng.randint(1, 4)):
+            h = rng.choice(hs); idx = rng.randrange(len(srcs[h]))
+            ins.append((h, idx)); us.append(srcs[h][idx])
+        db = {h: (h, outs) for h, outs in srcs.items()}
+        for _m in range(rng.choice([0, 1, 1, 1, 2])):
+            mode, pos = rng.randrange(8), rng.randrange(len(ins))
+            h = ins[pos][0]
+            if mode == 0 and h in db:
+                db[h] = (rs(32), db[h][1])                      # the db answers with another transaction
+            elif mode == 1 and h in db:
+                other = rng.choice(hs)
+                db[h] = (other, srcs[other])                      # … with another transaction it really has
+            elif mode == 2:
+                us[pos] = (us[pos][0] + rng.choice([-1, 1]), us[pos][1])
+            elif mode == 3:
+                us[pos] = (us[pos][0], us[pos][1] + b"\x00")
+            elif mode == 4 and h in srcs:
+                ins[pos] = (h, len(srcs[h]) + rng.choice([0, 1]))
+            elif mode == 5:
+                db.pop(h, None)
+            elif mode == 6:
+                ins[pos] = (ZERO32, rng.choice([ins[pos][1], 0xFFFFFFFF]))
+            # mode 7: nothing
+        if rng.random() < 0.05:
+            ins, us = [(ZERO32, 0xFFFFFFFF)], us[:1]
+        emit("validate_unspents_h %s %s %s %s" % (
+            show_list(ins, lambda t: "%s:%d" % (hx(t[0]), t[1])),
+            show_list(us, lambda t: "%d:%s" % (t[0], hx(t[1]))),
+            show_list(rng.randrange(1, 1000) for _ in range(rng.randint(1, 2))),
+            "|".join("%s=%s=%s" % (hx(k), hx(h), ";".join("%d:%s" % (v, hx(s_)) for v, s_ in outs)) for k, (h, outs) in db.items()) or "~"))
